@@ -1,4 +1,5 @@
 import collections.abc
+import dataclasses
 
 from decimal import Decimal
 from functools import singledispatchmethod
@@ -72,6 +73,7 @@ class Compiler:
             else:
                 raise ProgrammingError('positional and named parameters cannot be mixed')
 
+        check_subqueries(query)
         return self._compile(query)
 
     @singledispatchmethod
@@ -717,6 +719,27 @@ def transform_balances(balances):
                       cooked_select.group_by,
                       cooked_select.order_by,
                       None, None, None)
+
+
+def check_subqueries(query):
+    """Check that subqueries appear only where they are supported.
+
+    A SELECT nested in a statement is compiled into a query, not into
+    an expression node: it is supported only as the FROM clause of a
+    SELECT and as right operand of the IN and NOT IN operators.
+
+    """
+    for node in query.walk():
+        for field in dataclasses.fields(node):
+            value = getattr(node, field.name)
+            for child in value if isinstance(value, list) else [value]:
+                if isinstance(child, ast.Select):
+                    if isinstance(node, ast.Select) and field.name == 'from_clause':
+                        continue
+                    if isinstance(node, (ast.In, ast.NotIn)) and field.name == 'right':
+                        continue
+                    raise CompilationError(
+                        'subqueries are only supported in the FROM clause and as right operand of IN', child)
 
 
 def get_target_name(target):
